@@ -26,12 +26,14 @@ func profileFor(prop string) Profile {
 		p.PTargets, p.PCtxTargets, p.PMulti, p.MaxRules, p.PPrereq, p.MaxSegs = 0.85, 0.65, 0.5, 1, 0.1, 1
 		p.PLegacy = 0.35 // legacy users: the only way to an empty key
 		p.PPlaceholders = 0.25
+		p.PKindInTargets = 0.1
 	case "C04":
 		p.MaxRules, p.MaxClauses, p.PSegmentOp, p.PPrereq, p.PTargets, p.PCtxTargets, p.PKindAttr, p.PRollout = 2, 3, 0.03, 0.12, 0.05, 0.05, 0.15, 0.1
 		p.MaxFlags, p.MaxSegs, p.POff = 2, 1, 0.02 // a few prerequisites: a malformed clause reached inside one ends the whole evaluation
 		p.Ops = append(append([]string{}, allOps...), "in", "in", "in") // equality sets have a precomputed form of their own
 		p.PZeroAge = 0.2
 		p.PDateAttr = 0.35
+		p.PMissingAttr, p.MaxClauses = 0.06, 3
 		p.PSingleMal = 0.08 // a malformed clause must end the evaluation wherever it is reached (also inside a prerequisite)
 	case "C05":
 		p.PSegmentOp, p.PBigSeg, p.MinSegs, p.MaxSegs, p.PPrereq, p.PTargets, p.PCtxTargets, p.POff = 0.75, 0.0, 2, 5, 0.05, 0.05, 0.05, 0.02
@@ -39,12 +41,14 @@ func profileFor(prop string) Profile {
 		p.PNestedSeg = 0.1
 		p.PTopBucket = 0.01
 		p.PPseudoKind = 0.12
+		p.PLegacy, p.PEmptyKeyLists = 0.3, 0.6
 	case "C06":
 		p.PRollout, p.PLongStrings, p.PPrereq, p.PTargets, p.PCtxTargets, p.POff, p.MaxRules = 0.95, 0.25, 0, 0.02, 0.02, 0.02, 1
 		p.PSegmentOp, p.MinSegs, p.MaxClauses = 0.45, 2, 1 // weighted segment rules (incl. ones that look into another segment) share the hash
 		p.PNestedSeg = 0.12
 		p.PTopBucket = 0.01
 		p.PLongHash = 0.03
+		p.PSegTwoRules = 0.06
 		p.PZeroAge = 0.12
 		p.PSegBucket = 0.3 // weighted segment rules with a bucket-by attribute; an invalid reference gives MALFORMED_FLAG at every weight
 	case "C07":
